@@ -213,6 +213,9 @@ func runC16(c *Check) {
 						if anyFieldLoad(x) == fHeight && eq && d.Key == "" {
 							d.Key = "height"
 						}
+						if anyFieldLoad(x) == fHash && eq && d.Key == "" && !isNilConst(y) {
+							d.Key = "hash" // array comparison instead of the Equal method
+						}
 						if f := anyFieldLoad(x); f != nil && f.Name() == "Hash" && isNilConst(y) && !eq {
 							d.HashNonNil = true
 						}
@@ -502,9 +505,11 @@ func runC16(c *Check) {
 				}
 				// value = tx.TxOut[idx]
 				var idx ssa.Value
-				if u, ok := st.Val.(*ssa.UnOp); ok {
-					if src, ok := u.X.(*ssa.IndexAddr); ok && mentionsFieldNamed(src.X, "TxOut") {
-						idx = src.Index
+				for _, sv := range flattenPhi(st.Val, 0) { // the value may come through an expanded helper's result
+					if u, ok := sv.(*ssa.UnOp); ok {
+						if src, ok := u.X.(*ssa.IndexAddr); ok && mentionsFieldNamed(src.X, "TxOut") {
+							idx = src.Index
+						}
 					}
 				}
 				if idx == nil {
@@ -522,7 +527,7 @@ func runC16(c *Check) {
 					"outputs[k] = tx.TxOut[outpoints[k].Index]", "outputs[k] is filled with the output selected by a different outpoint's index")
 			}
 		}
-		c.Min("R7", "output assignments in GetOutputs", n, 2)
+		c.Min("R7", "output assignments in GetOutputs", n, 1)
 	}
 	// wrapping a provably nil error
 	for _, fn := range c.P.FuncsIn("client") {
@@ -576,4 +581,16 @@ func calleeShortKey(c *Check, cc *ssa.CallCommon) string {
 		return c.P.Key(f)
 	}
 	return ""
+}
+
+// flattenPhi lists the non-phi inputs a value can be (constants included).
+func flattenPhi(v ssa.Value, depth int) []ssa.Value {
+	if p, ok := v.(*ssa.Phi); ok && depth < 5 {
+		var out []ssa.Value
+		for _, e := range p.Edges {
+			out = append(out, flattenPhi(e, depth+1)...)
+		}
+		return out
+	}
+	return []ssa.Value{v}
 }
